@@ -56,3 +56,99 @@ Proof. reflexivity. Qed.
 
 Lemma core_prune_with_log : forall l s p o, core_prune (with_log l s) p o = with_log l (core_prune s p o).
 Proof. reflexivity. Qed.
+
+(* ------------------------------------------------------------------ *)
+(* functions that do not mention the log                               *)
+(* ------------------------------------------------------------------ *)
+Lemma kversion_equal_with_log : forall l s f, kversion_equal (with_log l s) f = kversion_equal s f.
+Proof. reflexivity. Qed.
+
+Lemma phys_exists_with_log : forall l s p, phys_exists (with_log l s) p = phys_exists s p.
+Proof. reflexivity. Qed.
+
+Lemma start_replay_with_log : forall l s, start_replay (with_log l s) = start_replay s.
+Proof. reflexivity. Qed.
+
+Lemma on_disk_with_log : forall l s p c cmpres raised,
+  on_disk (with_log l s) p c cmpres raised = on_disk s p c cmpres raised.
+Proof. reflexivity. Qed.
+
+Lemma kreplay_list_F : forall l s subs,
+  Forall (fun o => forall r, kreplay (with_log l s) o r = kreplay s o r) subs ->
+  forall r, kreplay_list (with_log l s) subs r = kreplay_list s subs r.
+Proof.
+  intros l s subs H. induction H as [|x rest Hx _ IH]; intro r; [reflexivity|].
+  rewrite !kreplay_list_cons, Hx. destruct (kreplay s x r); [apply IH|reflexivity].
+Qed.
+
+Lemma kreplay_with_log : forall l s o r, kreplay (with_log l s) o r = kreplay s o r.
+Proof.
+  intros l s o.
+  induction o as [q rt e | p c f a k subs rt cr ra sf IH | f a k subs rt ra sf IH] using op_ind'; intro r.
+  - reflexivity.
+  - rewrite !kreplay_BF. rewrite kversion_equal_with_log, on_disk_with_log.
+    change (k_cachefile (with_log l s)) with (k_cachefile s).
+    change (k_fs (with_log l s)) with (k_fs s).
+    change (k_stale (with_log l s)) with (k_stale s).
+    destruct (negb (kversion_equal s f)); [reflexivity|]. destruct sf; [reflexivity|].
+    destruct (on_disk s p c cr ra); [|reflexivity].
+    destruct (mem_path p (rp_claimedF r) || path_eqb p (k_cachefile s)); [reflexivity|].
+    destruct (missing_dirs (rp_fs r) (k_cachefile s) (dirname p)) as [dirs|e]; [|reflexivity].
+    destruct (mkdir_all (rp_fs r) dirs) as [fs1|e]; [|reflexivity].
+    rewrite (kreplay_list_F l s subs IH). reflexivity.
+  - rewrite !kreplay_SB. rewrite kversion_equal_with_log.
+    rewrite (kreplay_list_F l s subs IH). reflexivity.
+Qed.
+
+Lemma kreplay_list_with_log : forall l s subs r, kreplay_list (with_log l s) subs r = kreplay_list s subs r.
+Proof.
+  intros. apply kreplay_list_F. apply Forall_forall. intros; apply kreplay_with_log.
+Qed.
+
+Lemma core_hit_with_log : forall l s s0 p fname sa skw,
+  core_hit (with_log l s) (with_log l s0) p fname sa skw = core_hit s s0 p fname sa skw.
+Proof.
+  intros. unfold core_hit.
+  change (k_old (with_log l s)) with (k_old s).
+  change (k_fs (with_log l s0)) with (k_fs s0).
+  change (k_stale (with_log l s0)) with (k_stale s0).
+  rewrite kversion_equal_with_log, start_replay_with_log.
+  destruct (cache_get_file (k_old s) p) as [[| p' c' fname' a' k' subs' ret' cmpres' raised' sf' |]|]; try reflexivity.
+  rewrite kreplay_list_with_log. reflexivity.
+Qed.
+
+Lemma core_subhit_with_log : forall l s fname key,
+  core_subhit (with_log l s) fname key = core_subhit s fname key.
+Proof.
+  intros. unfold core_subhit.
+  change (k_old (with_log l s)) with (k_old s).
+  rewrite kversion_equal_with_log, start_replay_with_log.
+  destruct (subs_get (c_subs (k_old s)) key) as [[[| |f' a' k' subs' ret' raised' sf']|]|]; try reflexivity.
+  rewrite kreplay_list_with_log. reflexivity.
+Qed.
+
+Lemma core_finish_with_log : forall l s2 p c fname sa skw bsubs res pend,
+  core_finish (with_log l s2) p c fname sa skw bsubs res pend =
+  (with_log l (fst (fst (core_finish s2 p c fname sa skw bsubs res pend))),
+   snd (fst (core_finish s2 p c fname sa skw bsubs res pend)),
+   snd (core_finish s2 p c fname sa skw bsubs res pend)).
+Proof.
+  intros. unfold core_finish.
+  change (k_fs (with_log l s2)) with (k_fs s2).
+  change (k_clock (with_log l s2)) with (k_clock s2).
+  change (k_nextid (with_log l s2)) with (k_nextid s2).
+  destruct res as [v|e]; [|reflexivity].
+  destruct (sanitize v) as [sv|]; [|reflexivity].
+  destruct pend as [bytes|]; [|reflexivity].
+  destruct (write_file (k_fs s2) p bytes None (k_clock s2) (k_nextid s2)); reflexivity.
+Qed.
+
+Lemma core_finish_log : forall s2 p c fname sa skw bsubs res pend,
+  k_log (fst (fst (core_finish s2 p c fname sa skw bsubs res pend))) = k_log s2.
+Proof.
+  intros. unfold core_finish.
+  destruct res as [v|e]; [|reflexivity].
+  destruct (sanitize v) as [sv|]; [|reflexivity].
+  destruct pend as [bytes|]; [|reflexivity].
+  destruct (write_file (k_fs s2) p bytes None (k_clock s2) (k_nextid s2)); reflexivity.
+Qed.
